@@ -148,7 +148,13 @@ class EF(Exception):
         return 0
 
 
-EXC = {"E0": E0, "E1": E1, "E2": E2, "E3": E3, "Fault": Fault, "EF": EF}
+class EB(BaseException):
+    """A user exception that is NOT an Exception (as SystemExit / KeyboardInterrupt / a custom abort class are).  Only raised
+    by callables running on a thread pool, whose worker stores any BaseException on the future: the layers above see an
+    ordinary failed future."""
+
+
+EXC = {"E0": E0, "E1": E1, "E2": E2, "E3": E3, "Fault": Fault, "EF": EF, "EB": EB}
 
 
 def verif_orig_raise_site(e):
@@ -340,7 +346,7 @@ class Fn(object):
         w.rec("call", fn=self.name, k=k, args=jsonable(args), kwargs=jsonable(kwargs), **extra)
         try:
             r = self._do(b, k, args, kwargs)
-        except Exception as e:
+        except (Exception, EB) as e:
             w.rec("raise", fn=self.name, k=k, exc=jsonable(e))
             raise
         w.rec("ret", fn=self.name, k=k, value=jsonable(r))
@@ -871,6 +877,8 @@ class World(object):
             else:
                 f = ex.submit(fn, *args, **kwargs)
             self.futs[op[2]] = f
+            if spec.get("objarg"):
+                self.weak[op[2] + ".future"] = weakref.ref(f)  # the returned future itself must be collectable once forgotten
             return "submitted"
         if k == "expr":
             self.expr(op[1], op[2])
